@@ -244,7 +244,7 @@ func checkFIFO(arr []arrival, grants []lockCall) error {
 		ps := parkOrder[ch]
 		for i, g := range gs {
 			if ps[i] != g {
-				return fmt.Errorf("FIFO: calls parked on mutex #%d in order %v (thread,nth) but were granted in order %v", ch, ps, gs)
+				return fmt.Errorf("FIFO: blocked calls were not granted in the order in which they parked\nmutex #%d: parked in order %v (thread,nth), granted in order %v", ch, ps, gs)
 			}
 		}
 	}
